@@ -221,6 +221,8 @@ func runC07(run *common.Run) {
 	}
 }
 
+const sharedHead, sharedHeadBody = "statichead", "shared head|"
+
 func c07History(run *common.Run, idx int, store string) {
 	r := run.Rand("C07.hist", idx)
 	srv, err := drive.Start(store, "")
@@ -276,7 +278,13 @@ func c07History(run *common.Run, idx int, store string) {
 				a, b := fmt.Sprintf("static%d", nstatic), fmt.Sprintf("static%d", nstatic+1)
 				nstatic += 2
 				sc = scripted{obj: obj, in: c07In{Kind: "WRITE", Id: id, Via: "compose", Cond: common.Pick(r, []string{"", "absent", "gen"})}, srcs: []string{a, b}}
-				register(id, "src "+a+" for "+id+"|"+"src "+b+" for "+id+"|")
+				if r.Bool() {
+					// every second compose starts from one source object shared by all such composes of the history
+					sc.srcs[0] = sharedHead
+					register(id, sharedHeadBody+"src "+b+" for "+id+"|")
+				} else {
+					register(id, "src "+a+" for "+id+"|"+"src "+b+" for "+id+"|")
+				}
 			case x < 9:
 				a := fmt.Sprintf("static%d", nstatic)
 				nstatic++
@@ -302,6 +310,9 @@ func c07History(run *common.Run, idx int, store string) {
 		for _, sc := range scripts[c] {
 			for _, src := range sc.srcs {
 				body := "src " + src + " for " + sc.in.Id + "|"
+				if src == sharedHead {
+					body = sharedHeadBody
+				}
 				sb := B
 				if sc.srcB != "" {
 					sb = sc.srcB
